@@ -389,7 +389,7 @@ func c06Test(t *testing.T, kind string) {
 			c = genC06Reads(rt)
 		}
 		v, nt, inc := runC06(c)
-		if inc {
+		if inc || (v != nil && transportNoise(v.Message)) {
 			col.Inconclusive()
 			return
 		}
